@@ -1359,6 +1359,18 @@ impl<'r, 'a> Th<'r, 'a> {
         };
         let ctx = Ctx { acq, flat: &flat_owned, retry, sorting, root_poisonable, shared: acq.api.is_read(), private: acq.rebuild };
         self.st.private_poison.clear();
+        if self.st.raw_faults() {
+            // a raw-lock panic may strike inside this call and unwind through live guards, and
+            // other threads may look before this thread has finished unwinding: from here on
+            // the Poisonables the call covers may be found poisoned
+            let ids = world.spec.poison_ids(spec_t, if acq.rebuild { None } else { Some(acq.target) });
+            let mut m = self.st.r.model.lock().unwrap();
+            for p in ids {
+                if !matches!(p, PoisonId::Private(_)) {
+                    m.poison.entry(p).or_default().may = true;
+                }
+            }
+        }
         self.dispatch(node, &ctx);
     }
 
@@ -1497,7 +1509,7 @@ impl<'r, 'a> Th<'r, 'a> {
         }
     }
 
-    fn after_raw_fault(&mut self, step: &Step, _recs: &[ApiRec]) {
+    fn after_raw_fault(&mut self, step: &Step, recs: &[ApiRec]) {
         let s = self.st.s();
         let tid = self.st.tid;
         // a raw-lock panic that unwinds through live guards may poison what they cover
@@ -1507,6 +1519,20 @@ impl<'r, 'a> Th<'r, 'a> {
             let mut m = self.st.r.model.lock().unwrap();
             for p in ids {
                 m.poison.entry(p).or_default().may = true;
+            }
+            // ... and *must* poison the Poisonable members whose exclusive hold was still live
+            // when the release of another member panicked while a guard was being released
+            // (the panic unwinds through the rest of the guard)
+            if !a.rebuild && !a.api.is_scoped() {
+                for rec in recs.iter().filter(|r| r.kind == ApiKind::Release) {
+                    for &lid in &rec.live_excl_at_unlock_fault {
+                        for d in 0..spec.leaves[lid].layers() {
+                            let e = m.poison.entry(PoisonId::Leaf(lid, d)).or_default();
+                            e.must = true;
+                            e.must_direct = true;
+                        }
+                    }
+                }
             }
         }
         // every lock other than those whose own operation panicked must be free of this thread
